@@ -432,6 +432,8 @@ def run(
                 url_datapoints, data_structures, mapping_dict
             )
             input_datasets.update(url_ds)
+            # Replace the URL entries in a copy, never in the caller's dictionary
+            datapoints = dict(datapoints)
             for url_name, url_df in url_dfs.items():
                 datapoints[url_name] = url_df
             for url_name in url_datapoints:
